@@ -146,7 +146,7 @@ def run_unit(unit, canaries=True, keep=None):
         f.write(text)
     if keep:
         shutil.copy(path, keep)
-    cmd = [VERUS, fname, '--output-json', '--time-expanded', '--multiple-errors', '8',
+    cmd = [VERUS, fname, '--edition', '2024', '--output-json', '--time-expanded', '--multiple-errors', '8',
            '--triggers-mode', 'silent', '--rlimit', RLIMIT, '--', '--error-format=json']
     res['cmd'] = ' '.join(cmd) + f'   (file generated from units/{unit}/unit.vs + /repo working tree)'
     try:
